@@ -106,7 +106,6 @@ type Obs struct {
 	RTAfterStop bool        `json:"roundtrip_after_stop"`
 	SendErr     string      `json:"send_err,omitempty"`
 	SendStatus  int         `json:"send_status,omitempty"`
-	Dbg []string `json:"dbg"`
 	Overrun     bool        `json:"-"`
 }
 
@@ -122,7 +121,6 @@ type caseState struct {
 	overrun     bool
 	rt          atomic.Int64 // index of the RoundTrip in flight (-1 before Send)
 	wire        [16]atomic.Int64
-	dbg []string
 	dialed      []string // local addresses of the connections the client opened
 	stopped     atomic.Bool
 	rtAfterStop atomic.Bool
@@ -296,15 +294,13 @@ type wireConn struct {
 }
 
 func (c *wireConn) Write(p []byte) (int, error) {
-	i := c.cs.rt.Load() // the write is issued inside the RoundTrip it belongs to
-	n, err := c.Conn.Write(p)
+	// Account before the syscall: the writing goroutine may be descheduled
+	// after it for longer than the rest of the case takes.
+	i := c.cs.rt.Load()
 	if i >= 0 && int(i) < len(c.cs.wire) {
-		c.cs.wire[i].Add(int64(n))
+		c.cs.wire[i].Add(int64(len(p)))
 	}
-	c.cs.mu.Lock()
-	c.cs.dbg = append(c.cs.dbg, fmt.Sprintf("w rt=%d n=%d", i, n))
-	c.cs.mu.Unlock()
-	return n, err
+	return c.Conn.Write(p)
 }
 
 // recording RoundTripper: passes the request through unchanged.
@@ -512,7 +508,6 @@ func (w *worker) exec(c Case) (*Obs, error) {
 		}
 	}
 	o.Backoff = bo.out
-	o.Dbg = cs.dbg
 	o.RTAfterStop = cs.rtAfterStop.Load()
 	if n := w.stray.Load(); n > 0 {
 		return nil, fmt.Errorf("%d stray requests reached the server", n)
